@@ -1,11 +1,391 @@
-//! Concurrent-stream cuts (alloc / std only).
+//! Concurrent-stream cuts (alloc / std only): source (`co()` or `Vec::into_co_stream`),
+//! adapter stacks of depth <= 3 from {map, enumerate, take, limit}, terminal operations
+//! for_each / try_for_each / collect / collect::<Result<Vec<_>,_>>.
+
 use crate::cuts::Cut;
 use crate::exec::Vector;
 
+#[cfg(not(feature = "alloc"))]
 pub fn build(v: &Vector) -> Result<Box<dyn Cut>, String> {
-    Err(format!("co-streams not built yet: {}", v.term))
+    Err(format!("co-streams need alloc: {}", v.term))
 }
 
+#[cfg(not(feature = "alloc"))]
 pub fn gen_vector(_rng: &mut crate::gen::Rng, id: String, cont: &str, n: usize, _profile: &str) -> Vector {
     Vector { id, fam: "co".into(), cont: cont.into(), n, scripts: vec![], cmds: vec![], x: -1, limit: 0, stack: vec![], term: String::new(), src: String::new() }
+}
+
+#[cfg(not(feature = "alloc"))]
+pub fn effective(_stack: &[serde_json::Value]) -> (i64, usize) {
+    (-1, 0)
+}
+
+#[cfg(feature = "alloc")]
+pub use imp::{build, effective, gen_vector};
+
+#[cfg(feature = "alloc")]
+mod imp {
+    use std::future::Future;
+    use std::num::NonZeroUsize;
+    use std::pin::Pin;
+    use std::task::{Context, Poll};
+
+    use futures_concurrency::prelude::*;
+    use futures_core::Stream;
+    use serde_json::{json, Value};
+
+    use crate::cuts::{fut_cut, Cut, RetEv};
+    use crate::exec::{ScriptS, StepS, Vector};
+    use crate::gen::Rng;
+    use crate::script::{Child, Out, RFut, SStream, UFut, Val};
+    use crate::world::with;
+
+    pub struct It {
+        pub v: Val,
+        pub src: i64,
+        pub idx: i64,
+    }
+
+    #[derive(Clone, Debug)]
+    enum Ad {
+        Map,
+        Enumerate,
+        Take(usize),
+        Limit(usize),
+    }
+
+    fn parse_stack(stack: &[Value]) -> Result<Vec<Ad>, String> {
+        let mut out = vec![];
+        for a in stack {
+            if let Some(s) = a.as_str() {
+                match s {
+                    "map" => out.push(Ad::Map),
+                    "enumerate" => out.push(Ad::Enumerate),
+                    _ => return Err(format!("bad adapter {}", s)),
+                }
+            } else if let Some(arr) = a.as_array() {
+                let name = arr.first().and_then(|x| x.as_str()).unwrap_or("");
+                let n = arr.get(1).and_then(|x| x.as_u64()).unwrap_or(0) as usize;
+                match name {
+                    "take" => out.push(Ad::Take(n)),
+                    "limit" => out.push(Ad::Limit(n)),
+                    _ => return Err(format!("bad adapter {}", name)),
+                }
+            }
+        }
+        if out.len() > 3 {
+            return Err("stack deeper than 3".into());
+        }
+        Ok(out)
+    }
+
+    /// effective take (min over take adapters, -1 none) and limit (outermost limit adapter, 0 unlimited)
+    pub fn effective(stack: &[Value]) -> (i64, usize) {
+        let mut take: i64 = -1;
+        let mut limit = 0usize;
+        if let Ok(ads) = parse_stack(stack) {
+            for a in ads {
+                match a {
+                    Ad::Take(n) => {
+                        take = if take < 0 { n as i64 } else { take.min(n as i64) };
+                    }
+                    Ad::Limit(n) => limit = n,
+                    _ => {}
+                }
+            }
+        }
+        (take, limit)
+    }
+
+    struct ItStream(SStream);
+    impl Stream for ItStream {
+        type Item = It;
+        fn poll_next(mut self: Pin<&mut Self>, cx: &mut Context<'_>) -> Poll<Option<It>> {
+            match Pin::new(&mut self.0).poll_next(cx) {
+                Poll::Pending => Poll::Pending,
+                Poll::Ready(None) => Poll::Ready(None),
+                Poll::Ready(Some(v)) => {
+                    let src = v.id as i64;
+                    Poll::Ready(Some(It { v, src, idx: -1 }))
+                }
+            }
+        }
+    }
+
+    fn next_work() -> usize {
+        with(|w| {
+            let c = w.next_work;
+            w.next_work += 1;
+            w.ensure_child(c);
+            // scripts beyond those given default to "ready at once"
+            while w.scripts.len() <= c {
+                w.scripts.push(crate::world::Script { steps: vec![], tail: "done".into(), tail_ok: true });
+            }
+            c
+        })
+    }
+
+    /// A user closure was invoked with `it`: the item now belongs to caller code.
+    fn closure_called(layer: i64, it: &It) -> usize {
+        let c = next_work();
+        let vid = it.v.release();
+        with(|w| {
+            if layer >= 0 {
+                w.ev(format_args!("{{\"e\":\"mapcall\",\"layer\":{},\"src\":{},\"v\":{}}}", layer, it.src, vid));
+            }
+            w.ev(format_args!(
+                "{{\"e\":\"wnew\",\"c\":{},\"layer\":{},\"src\":{},\"v\":{},\"idx\":{}}}",
+                c, layer, it.src, vid, it.idx
+            ));
+        });
+        c
+    }
+
+    /// The future a `map` closure returns: resolves to a new item derived from the input.
+    pub struct MapWork {
+        child: Child,
+        src: i64,
+        idx: i64,
+    }
+    impl Future for MapWork {
+        type Output = It;
+        fn poll(mut self: Pin<&mut Self>, cx: &mut Context<'_>) -> Poll<It> {
+            match self.child.step(cx, false) {
+                Out::Ready { v, .. } => Poll::Ready(It { v, src: self.src, idx: self.idx }),
+                _ => Poll::Pending,
+            }
+        }
+    }
+
+    /// fallible variant (collect into Result)
+    pub struct TryMapWork {
+        child: Child,
+        src: i64,
+        idx: i64,
+    }
+    impl Future for TryMapWork {
+        type Output = Result<It, Val>;
+        fn poll(mut self: Pin<&mut Self>, cx: &mut Context<'_>) -> Poll<Result<It, Val>> {
+            match self.child.step(cx, false) {
+                Out::Ready { ok: true, v } => Poll::Ready(Ok(It { v, src: self.src, idx: self.idx })),
+                Out::Ready { ok: false, v } => Poll::Ready(Err(v)),
+                _ => Poll::Pending,
+            }
+        }
+    }
+
+    fn mapf(layer: i64) -> impl Fn(It) -> MapWork + Clone {
+        move |it: It| {
+            let c = closure_called(layer, &it);
+            MapWork { child: Child::new_infallible(c, false), src: it.src, idx: it.idx }
+        }
+    }
+
+    type BoxFut = Pin<Box<dyn Future<Output = RetEv>>>;
+
+    fn term<CS>(cs: CS, term: &str) -> Result<BoxFut, String>
+    where
+        CS: ConcurrentStream<Item = It> + 'static,
+    {
+        Ok(match term {
+            "for_each" => Box::pin(async move {
+                cs.for_each(|it: It| {
+                    let c = closure_called(-1, &it);
+                    UFut(Child::new_infallible(c, true))
+                })
+                .await;
+                RetEv::ready_out(true, vec![])
+            }),
+            "try_for_each" => Box::pin(async move {
+                let r = cs
+                    .try_for_each(|it: It| {
+                        let c = closure_called(-1, &it);
+                        RFut(Child::new_unit(c))
+                    })
+                    .await;
+                match r {
+                    Ok(()) => RetEv::ready_out(true, vec![]),
+                    Err(e) => RetEv::ready_v(false, e.release()),
+                }
+            }),
+            "collect" => Box::pin(async move {
+                let v: Vec<It> = cs.collect().await;
+                RetEv::ready_out(true, v.iter().map(|it| it.v.release()).collect())
+            }),
+            "collect_result" => Box::pin(async move {
+                let r: Result<Vec<It>, Val> = cs
+                    .map(|it: It| {
+                        let c = closure_called(-1, &it);
+                        TryMapWork { child: Child::new_infallible(c, false), src: it.src, idx: it.idx }
+                    })
+                    .collect()
+                    .await;
+                match r {
+                    Ok(v) => RetEv::ready_out(true, v.iter().map(|it| it.v.release()).collect()),
+                    Err(e) => RetEv::ready_v(false, e.release()),
+                }
+            }),
+            _ => return Err(format!("bad terminal {}", term)),
+        })
+    }
+
+    macro_rules! level {
+        ($name:ident, $next:ident) => {
+            fn $name<CS>(cs: CS, stack: &[Ad], layer: i64, t: &str) -> Result<BoxFut, String>
+            where
+                CS: ConcurrentStream<Item = It> + 'static,
+            {
+                match stack.split_first() {
+                    None => term(cs, t),
+                    Some((ad, rest)) => match ad {
+                        Ad::Map => $next(cs.map(mapf(layer)), rest, layer + 1, t),
+                        Ad::Enumerate => $next(
+                            cs.enumerate().map(|(i, it): (usize, It)| {
+                                core::future::ready(It { v: it.v, src: it.src, idx: i as i64 })
+                            }),
+                            rest,
+                            layer,
+                            t,
+                        ),
+                        Ad::Take(n) => $next(cs.take(*n), rest, layer, t),
+                        Ad::Limit(n) => $next(cs.limit(NonZeroUsize::new(*n)), rest, layer, t),
+                    },
+                }
+            }
+        };
+    }
+
+    fn lvl0<CS>(cs: CS, stack: &[Ad], _layer: i64, t: &str) -> Result<BoxFut, String>
+    where
+        CS: ConcurrentStream<Item = It> + 'static,
+    {
+        if !stack.is_empty() {
+            return Err("stack too deep".into());
+        }
+        term(cs, t)
+    }
+    level!(lvl1, lvl0);
+    level!(lvl2, lvl1);
+    level!(lvl3, lvl2);
+
+    pub fn build(v: &Vector) -> Result<Box<dyn Cut>, String> {
+        let stack = parse_stack(&v.stack)?;
+        let fut = match v.cont.as_str() {
+            "co" => {
+                let s = ItStream(SStream(Child::new(0)));
+                lvl3(s.co(), &stack, 0, &v.term)?
+            }
+            "vec" => {
+                // items handed in at construction: announced as answers of child 0
+                let mut items = vec![];
+                for i in 0..v.n {
+                    let id = i as u64;
+                    let val = Val::new(id);
+                    with(|w| {
+                        w.ev(format_args!(
+                            "{{\"e\":\"cret\",\"c\":0,\"k\":{},\"r\":\"some\",\"ok\":true,\"v\":{}}}",
+                            i, id
+                        ))
+                    });
+                    items.push(It { v: val, src: id as i64, idx: -1 });
+                }
+                with(|w| {
+                    w.ev(format_args!(
+                        "{{\"e\":\"cret\",\"c\":0,\"k\":{},\"r\":\"none\",\"ok\":true,\"v\":-1}}",
+                        v.n
+                    ));
+                    // the source "child" is not an object the combinator owns
+                    w.alive[0] = false;
+                });
+                lvl3(items.into_co_stream(), &stack, 0, &v.term)?
+            }
+            c => return Err(format!("bad co source {}", c)),
+        };
+        Ok(fut_cut(fut, |r| r))
+    }
+
+    fn step(r: &str) -> StepS {
+        StepS { r: r.into(), ok: true, fires: vec![] }
+    }
+
+    pub fn gen_vector(rng: &mut Rng, id: String, cont: &str, n: usize, profile: &str) -> Vector {
+        // stack
+        let depth = rng.below(4) as usize;
+        let mut stack: Vec<Value> = vec![];
+        for _ in 0..depth {
+            match rng.below(4) {
+                0 => stack.push(json!("map")),
+                1 => stack.push(json!("enumerate")),
+                2 => stack.push(json!(["take", rng.below(5)])),
+                _ => stack.push(json!(["limit", rng.below(4)])),
+            }
+        }
+        let term = match profile {
+            "for_each" => "for_each",
+            "try" => ["try_for_each", "collect_result"][rng.below(2) as usize],
+            "collect" => "collect",
+            _ => ["for_each", "try_for_each", "collect", "collect_result"][rng.below(4) as usize],
+        }
+        .to_string();
+        let fallible = term == "try_for_each" || term == "collect_result";
+        // source script (for "co"): n items with pendings in between
+        let mut scripts = vec![];
+        let mut steps = vec![];
+        for _ in 0..n {
+            while rng.chance(30) {
+                let mut s = step("p");
+                if rng.chance(30) {
+                    s.fires.push((-2, -1));
+                }
+                steps.push(s);
+            }
+            steps.push(step("s"));
+        }
+        while rng.chance(20) {
+            steps.push(step("p"));
+        }
+        scripts.push(ScriptS { steps, tail: "done".into(), tail_ok: true });
+        // work scripts: enough for n items x (map layers + terminal)
+        let nwork = n * 4 + 2;
+        let err_pct = if fallible { [0, 15, 40][rng.below(3) as usize] } else { 0 };
+        for _ in 0..nwork {
+            let mut steps = vec![];
+            for _ in 0..rng.below(3) {
+                let mut s = step("p");
+                if rng.chance(25) {
+                    s.fires.push((-2, -1));
+                }
+                if rng.chance(10) {
+                    s.fires.push((rng.below(nwork as u64 + 1) as i64, -1));
+                }
+                steps.push(s);
+            }
+            let ok = !rng.chance(err_pct);
+            scripts.push(ScriptS { steps, tail: "done".into(), tail_ok: ok });
+        }
+        // commands
+        let mut cmds = vec![];
+        let len = rng.below(10);
+        for _ in 0..len {
+            let d = rng.below(100);
+            if d < 40 {
+                cmds.push(json!(["poll"]));
+            } else if d < 80 {
+                cmds.push(json!(["fire", rng.below(nwork as u64 + 1), -1]));
+            } else if d < 88 {
+                cmds.push(json!(["fire", rng.below(nwork as u64 + 1), rng.below(2)]));
+            } else {
+                cmds.push(json!(["run"]));
+            }
+        }
+        if (profile == "drop" || rng.chance(15)) && !cmds.is_empty() {
+            let at = rng.below(cmds.len() as u64 + 1) as usize;
+            cmds.insert(at, json!(["drop"]));
+        }
+        if rng.chance(90) {
+            cmds.push(json!([if rng.chance(30) { "settle_all" } else { "settle" }]));
+        }
+        let (_take, limit) = effective(&stack);
+        Vector { id, fam: "co".into(), cont: cont.into(), n, scripts, cmds, x: -1, limit, stack, term, src: cont.into() }
+    }
 }
